@@ -19,7 +19,7 @@ TRUSTED = ["CBMC 6.11 + cvc5 1.0", "irsym LLVM-IR interpreter; BLAKE2b spec mode
            "composition: padding/chunking over an abstract compression function + compression function == spec => hash == spec"]
 ASSUMPTIONS = ["message lengths in the enumerated sets"]
 OUTSIDE = ["poly1305_sse2.c for keys r that are not a power of two <= 8 and for messages longer than 47 bytes (its multiplications by general r / r^2 / r^4 are symbolic-by-symbolic 26-bit-limb SIMD products; the donna unit is decided end to end: buffering/padding/clamping/verify (CBMC), block multiplication mod 2^130-5 (E2 limb mode), final reduction (CBMC))",
-           "messages longer than the bounds / other split points", "SIMD BLAKE2b compression units vs the reference unit: under C10 (E2, thorough tier)"]
+           "messages longer than the bounds / other split points", "SIMD BLAKE2b compression units vs the reference unit (the E2 target gives no verdict within budget; not claimed)"]
 
 
 def obligations(tier):
